@@ -311,6 +311,7 @@ type Explorer struct {
 	// Shard: only explore level-1 subtrees i with i % NShards == Shard (the
 	// default execution belongs to shard 0).
 	Shard, NShards int
+	Offset         int // rotates the assignment of level-1 subtrees to shards
 	subtree        int
 }
 
@@ -326,18 +327,19 @@ func (e *Explorer) Explore(mk func() []func(), check func(x *Execution) bool) {
 	e.explore(nil, mk, check, true)
 }
 
-func (e *Explorer) explore(prefix []int, mk func() []func(), check func(x *Execution) bool, top bool) bool {
+// explore: free == true while the prefix consists of zero-cost choices only.
+// Such nodes are executed by every shard (there are only a handful of them)
+// and checked by shard 0; every subtree that starts with the first costly
+// deviation is owned by exactly one shard. This splits the work evenly even
+// though the zero-cost alternatives (initial thread choice, switches forced by
+// a thread ending) head subtrees as large as the whole tree.
+func (e *Explorer) explore(prefix []int, mk func() []func(), check func(x *Execution) bool, free bool) bool {
 	if e.MaxExec > 0 && e.Executions >= e.MaxExec {
 		e.Exhaustive = false
 		return false
 	}
-	skipRun := false
-	if top && e.Shard != 0 {
-		// other shards still need the default execution to learn the points, but do not check it
-		skipRun = true
-	}
 	x := Execute(prefix, e.MaxSteps, mk())
-	if !skipRun {
+	if !free || e.Shard == 0 {
 		e.Executions++
 		if len(x.Points) > e.MaxPoints {
 			e.MaxPoints = len(x.Points)
@@ -351,19 +353,21 @@ func (e *Explorer) explore(prefix []int, mk func() []func(), check func(x *Execu
 	}
 	for i := len(prefix); i < len(x.Points); i++ {
 		p := &x.Points[i]
-		cost := x.Cost(i) + p.altCost()
+		ac := p.altCost()
+		cost := x.Cost(i) + ac
 		if e.Bound >= 0 && cost > e.Bound {
 			continue
 		}
 		for alt := 1; alt < p.N; alt++ {
-			if top {
+			childFree := free && ac == 0
+			if free && !childFree {
 				e.subtree++
-				if e.subtree%e.NShards != e.Shard {
+				if (e.subtree+e.Offset)%e.NShards != e.Shard {
 					continue
 				}
 			}
 			np := append(append(make([]int, 0, i+1), x.Choices()[:i]...), alt)
-			if !e.explore(np, mk, check, false) {
+			if !e.explore(np, mk, check, childFree) {
 				return false
 			}
 		}
